@@ -13,6 +13,7 @@ import itertools
 import pydsdl
 
 from .. import api, dump, engine, ws
+from .. import histories as H
 from ..ref import ns as N
 
 ID = "C09"
@@ -111,10 +112,14 @@ def plan(tier):
         for p in range(256):
             shards.append({"kind": "graphs", "assignment": "four", "n": 4, "part": p, "parts": 256})
     shards.append({"kind": "badrefs"})
+    shards += H.plan_shards(['nested-revisions'])
     return shards
 
 
 def cases(shard, tier):
+    if shard.get("kind") == "call-histories":
+        yield from H.cases_of(shard)
+        return
     if shard["kind"] == "graphs-from-last":
         n = shard["n"]
         src = FROM_NODE[shard["assignment"]]
@@ -364,6 +369,8 @@ def check_badrefs(case, R):
 
 
 def check_case(case, R):
+    if case.get("kind") == "call-history":
+        return H.check_history(case["label"], R, H.project_full, 'nested-type-depends-on-earlier-calls', 'a reference resolves to the named definition as it is on disk in THIS call (the nested type equals what reading that definition on its own yields)')
     if case["kind"] == "graph":
         check_graph(case, R)
     else:
